@@ -39,6 +39,7 @@ pub fn config_strategy(allow_filter: bool) -> BoxedStrategy<WireConfig> {
             resp_mode,
             nodes_packets,
             seqs,
+            nat_peers: vec![],
             foreign_enr_answer: vec![],
             v_session_timeout_ms: None,
             v_session_capacity: None,
@@ -67,7 +68,7 @@ fn know() -> BoxedStrategy<Know> {
 }
 
 fn addr_sel() -> BoxedStrategy<AddrSel> {
-    prop_oneof![3 => Just(AddrSel::Original), 2 => (0u8..3).prop_map(AddrSel::Attacker), 1 => (0u8..4).prop_map(AddrSel::Node)].boxed()
+    prop_oneof![3 => Just(AddrSel::Original), 2 => (0u8..3).prop_map(AddrSel::Attacker), 1 => (0u8..4).prop_map(AddrSel::Node), 2 => any::<u8>().prop_map(AddrSel::SameIpOtherPort)].boxed()
 }
 
 fn xsel() -> BoxedStrategy<XSel> {
@@ -87,6 +88,7 @@ fn mutation() -> BoxedStrategy<Mutation> {
         2 => any::<u16>().prop_map(|other| Mutation::SwapAuthData { other }),
         2 => (0u8..4).prop_map(|to| Mutation::Remask { to }),
         3 => any::<u8>().prop_map(|seed| Mutation::ReIv { seed }),
+        3 => any::<u8>().prop_map(|n| Mutation::ExtendAuthData { n }),
         3 => (0u8..3).prop_map(|variant| Mutation::HandshakeRecord { variant }),
     ]
     .boxed()
